@@ -111,8 +111,58 @@ func runC10(r *Runner, g *Gen, tier string) string {
 			continue
 		}
 		// a history on one instance: decode into a populated target, then into a fresh one
-		r.Do(codecOp("decm", cfg, t, "", v.Sexp(), prior.Sexp()), true, "decm.prior")
+		switch g.r.Intn(4) {
+		case 0:
+			// the target's slices carry stale elements in their spare capacity
+			r.Do(codecOp("decm", cfg, t, "", v.Sexp(), prior.Sexp(), A("stale")), true, "decm.stale-capacity")
+		case 1:
+			// … and are cut to length 0 first (`v = v[:0]`): what the decoder may see of them is nothing
+			r.Do(codecOp("decm", cfg, t, "", v.Sexp(), emptiedSlices(t, prior).Sexp(), A("stale0"), prior.Sexp()), true, "decm.stale-truncated")
+		default:
+			r.Do(codecOp("decm", cfg, t, "", v.Sexp(), prior.Sexp()), true, "decm.prior")
+		}
 		r.Do(codecOp("decm", cfg, t, "", v.Sexp(), A("zero")), nontrivialVal(t, v), "decm.fresh-after")
+	}
+	// the protobuf repeated form appends: every (prior length, new length) around the growth steps 0 -> 8 -> 16
+	strs := func(n int, p string) *Val {
+		out := &Val{K: "l"}
+		for i := 0; i < n; i++ {
+			out.L = append(out.L, &Val{K: "s", Data: []byte(fmt.Sprintf("%s%d", p, i))})
+		}
+		return out
+	}
+	pt := Struct(&FieldDef{Name: "S", Exported: true, Plenc: "1,proto", T: Slice(B("str"))})
+	pt2 := Struct(F("S", "1", Slice(Struct(F("A", "1", B("int"))))))
+	for _, nOld := range []int{0, 1, 2, 7, 8, 9, 15, 16, 17} {
+		for _, nNew := range []int{1, 2, 7, 8, 9} {
+			mode := []*Sexp{}
+			if (nOld+nNew)%2 == 1 {
+				mode = []*Sexp{A("stale")}
+			}
+			r.Do(codecOp("decm", "00", pt, "", append([]*Sexp{(&Val{K: "r", L: []*Val{strs(nNew, "n")}}).Sexp(), (&Val{K: "r", L: []*Val{strs(nOld, "old")}}).Sexp()}, mode...)...), true, "decm.proto-append")
+			mk := func(n int, base int64) *Val {
+				out := &Val{K: "l"}
+				for i := 0; i < n; i++ {
+					out.L = append(out.L, &Val{K: "r", L: []*Val{{K: "i", I: base + int64(i)}}})
+				}
+				return out
+			}
+			// written in the repeated form by a ProtoCompatibleArrays instance, appended by a default-mode one
+			pt3 := Struct(F("S", "1", Slice(B("str"))))
+			r.Do(L(append([]*Sexp{A("xdecm"), A("01"), A("00"), pt3.Sexp(), (&Val{K: "r", L: []*Val{strs(nNew, "n")}}).Sexp(), (&Val{K: "r", L: []*Val{strs(nOld, "old")}}).Sexp()}, mode...)...), true, "xdecm.proto-append")
+			// struct elements whose new contents leave a field absent: the slot (fresh or reused capacity) must be cleared first
+			pt4 := Struct(F("S", "1", Slice(Struct(F("A", "1", B("int")), F("B", "2", B("str"))))))
+			mkAB := func(n int, a int64, b string) *Val {
+				out := &Val{K: "l"}
+				for i := 0; i < n; i++ {
+					out.L = append(out.L, &Val{K: "r", L: []*Val{{K: "i", I: a}, {K: "s", Data: []byte(b)}}})
+				}
+				return out
+			}
+			r.Do(L(A("xdecm"), A("01"), A("00"), pt4.Sexp(), (&Val{K: "r", L: []*Val{mkAB(nNew, 0, "n")}}).Sexp(), (&Val{K: "r", L: []*Val{mkAB(nOld, 7, "old")}}).Sexp(), A("stale")), true, "xdecm.proto-append")
+			r.Do(codecOp("decm", "01", pt4, "", (&Val{K: "r", L: []*Val{mkAB(nNew, 5, "")}}).Sexp(), (&Val{K: "r", L: []*Val{mkAB(nOld, 7, "old")}}).Sexp(), A("stale")), true, "decm.proto-append")
+			r.Do(codecOp("decm", "01", pt2, "", append([]*Sexp{(&Val{K: "r", L: []*Val{mk(nNew, 100)}}).Sexp(), (&Val{K: "r", L: []*Val{mk(nOld, 1)}}).Sexp()}, mode...)...), true, "decm.proto-append")
+		}
 	}
 	// a value that encodes to nothing, decoded into a populated scalar / string / time / slice target at top level
 	for _, cfg := range cfgs {
@@ -195,6 +245,39 @@ func (g *Gen) reuseCase() (*TyDef, *Val, *Val) {
 	}
 	g.count("decm.reuse-case")
 	return t, prior, v
+}
+
+// emptiedSlices: the value with its own slice (top level) or its slice-typed fields
+// (one level) emptied — what remains visible of a target after `v = v[:0]`.
+func emptiedSlices(t *TyDef, v *Val) *Val {
+	u := t.under()
+	switch u.K {
+	case "slice":
+		if u.isBytes() {
+			return &Val{K: "y"}
+		}
+		return &Val{K: "l"}
+	case "struct":
+		out := &Val{K: "r"}
+		j := 0
+		for _, f := range u.Fields {
+			if !fieldEncoded(f) {
+				continue
+			}
+			fv := v.L[j]
+			if fu := f.T.under(); fu.K == "slice" {
+				if fu.isBytes() {
+					fv = &Val{K: "y"}
+				} else {
+					fv = &Val{K: "l"}
+				}
+			}
+			out.L = append(out.L, fv)
+			j++
+		}
+		return out
+	}
+	return v
 }
 
 // ---- C03 -------------------------------------------------------------------------
